@@ -747,6 +747,8 @@ package mqtt
 // only the retransmission of a message already taken is skipped: every other failure of onPUBLISH ends the
 // connection, and that one does not
 //@ at[C13,C04] call toOffline#4: assert err != errDupe
+// and in the dispatch, the duplicate of a PUBLISH is not a reason to end the connection either
+//@ at[C13,C04] call toOffline#7: assert head / 16 == 3 ==> err != errDupe
 //@ requires[C10] rdr(c)
 //@ stable writeSem, seqSem
 //@ requires rdinv(c) && rdmaps(c) && (c.readConn == nil) == (c.bufr == nil)
